@@ -12,7 +12,8 @@ namespace {
 static const char SPLIT_ALPHA[] = "&=a%";
 static uint64_t nsplit(Ctx& c) { return genum_count(4, (size_t)c.param_int("split_len", c.tier == "thorough" ? 9 : 7)); }
 static uint64_t nhuge(Ctx& c) { return (uint64_t)c.param_int("huge", 2); }
-static uint64_t ncases(Ctx& c) { return nsplit(c) + nhuge(c) + (uint64_t)c.param_int("random", c.tier == "thorough" ? 3000000 : 60000); }
+static uint64_t nmulti(Ctx& c) { return (uint64_t)c.param_int("multi", 72); }     // 36 variants x {char, wchar_t}
+static uint64_t ncases(Ctx& c) { return nsplit(c) + nhuge(c) + 255 * 4 + nmulti(c) + (uint64_t)c.param_int("random", c.tier == "thorough" ? 3000000 : 60000); }
 
 template <class X> struct Q {
     typedef typename X::Char Char; typedef typename X::QList QList;
@@ -138,6 +139,34 @@ template <class X> struct Q {
         }
         free(big);
     }
+    // many items sharing one big string: the running total crosses INT_MAX on a key or on a value of a later item while every
+    // single item stays far below the per-item guard (worst case per item = [&] + f*keylen + [= + f*valuelen], f = 3 or 6)
+    void multi_check(Ctx& c, unsigned variant) {
+        const size_t L = (size_t)1 << 20;
+        static Char* big = nullptr; static Char smallk[2];
+        if (!big) { big = (Char*)malloc((L + 1) * sizeof(Char)); if (!big) { c.count("multi_skipped_no_memory"); return; } for (size_t i = 0; i < L; i++) big[i] = X::wid('a'); big[L] = 0; smallk[0] = X::wid('k'); smallk[1] = 0; }
+        int nb = (int)(variant & 1); unsigned shape = (variant >> 1) % 3; unsigned step = (variant / 6) % 6;
+        long long f = nb ? 6 : 3;
+        const Char* key = shape == 1 ? smallk : big; const Char* value = shape == 2 ? nullptr : big;
+        long long klen = shape == 1 ? 1 : (long long)L, vlen = (long long)L;
+        long long per = 1 + f * klen + (value ? 1 + f * vlen : 0);
+        long long n0 = (long long)INT_MAX / per;                      // about the number of items that still fits
+        static const long long delta[6] = {-1, 0, 1, 2, 3, 40}; long long N = n0 + delta[step]; if (step == 5) N = 2 * n0 + 3; if (N < 1) N = 1;
+        std::vector<QList> nodes((size_t)N);
+        for (size_t i = 0; i < nodes.size(); i++) { nodes[i].key = key; nodes[i].value = value; nodes[i].next = i + 1 < nodes.size() ? &nodes[i + 1] : nullptr; }
+        long long truth = 0, textlen = 0;
+        for (long long i = 0; i < N; i++) { truth += (i ? 1 : 0) + f * klen + (value ? 1 + f * vlen : 0); textlen += (i ? 1 : 0) + klen + (value ? 1 + vlen : 0); }
+        int req = -1; int rc; { LibScope ls; rc = X::ComposeQueryCharsRequiredEx(nodes.data(), &req, 1, nb); }
+        c.evaluations++;
+        Str what = fmt("%lld items sharing a %zu-character string (key %s, value %s), normalizeBreaks=%d: worst-case total %lld, text length %lld", N, L, shape == 1 ? "\"k\"" : "big", value ? "big" : "NULL", nb, truth, textlen);
+        if (rc == URI_SUCCESS && truth > INT_MAX) c.violation("C17", fmt("query/%s/size-beyond-int-max-not-refused", X::tag()), what + fmt(" rc=0 charsRequired=%d", req));
+        else if (rc == URI_SUCCESS && (long long)req < textlen) c.violation("C17", fmt("query/%s/chars-required-too-small", X::tag()), what + fmt(" required=%d", req));
+        else if (rc != URI_SUCCESS && rc != URI_ERROR_OUTPUT_TOO_LARGE) c.violation("C17", fmt("query/%s/unexpected-error", X::tag()), what + fmt(" rc=%d", rc));
+        c.count(rc == URI_SUCCESS ? "multi_accepted" : "multi_refused"); c.count(truth > INT_MAX ? "multi_total_beyond_int_max" : "multi_total_within_int_max");
+        // the allocating variant must refuse as well (it would otherwise size its buffer from a wrapped figure)
+        if (truth > INT_MAX) { Char* out = nullptr; int r2; { LibScope ls; r2 = X::ComposeQueryMallocEx(&out, nodes.data(), 1, nb); } c.evaluations++;
+            if (r2 == URI_SUCCESS) { c.violation("C17", fmt("query/%s/size-beyond-int-max-not-refused", X::tag()), what + " (ComposeQueryMallocEx succeeded)"); free(out); } }
+    }
 };
 
 static Q<ApiA>* qA; static Q<ApiW>* qW;
@@ -152,6 +181,16 @@ static void run_case(Ctx& c, uint64_t idx) {
         return;
     }
     idx -= ns;
+    if (c.case_index >= ns + nh && c.case_index < ns + nh + 255 * 4) {      // every character value as key / value, all option combinations, both character types
+        uint64_t i = c.case_index - ns - nh; unsigned b = 1 + (unsigned)(i % 255); int opt = (int)(i / 255); Str ch(1, (char)b);
+        QItems L; QItem a; a.key = ch; a.hasValue = true; a.value = ch + ch; L.push_back(a); QItem b2; b2.key = "k" + ch + "k"; b2.hasValue = false; L.push_back(b2); QItem c3; c3.key = "e"; c3.hasValue = true; c3.value = ""; L.push_back(c3);
+        c.count("gen_charset"); c.note("query charset " + esc(ch)); c.distinct(hash_str(ch, 777 + (uint64_t)opt));
+        qA->compose_check(c, L, opt & 1, opt >> 1); qW->compose_check(c, L, opt & 1, opt >> 1); return;
+    }
+    if (c.case_index >= ns + nh + 255 * 4 && c.case_index < ns + nh + 255 * 4 + nmulti(c)) {
+        uint64_t i = c.case_index - ns - nh - 255 * 4; c.note(fmt("query multi-item INT_MAX variant %llu", (unsigned long long)i)); c.attribute("C17"); c.distinct(99000 + i);
+        if (i & 1) qW->multi_check(c, (unsigned)(i >> 1)); else qA->multi_check(c, (unsigned)(i >> 1)); return;
+    }
     if (idx < nh) { c.note("query huge"); c.attribute("C17"); if (idx % 2 == 0 || c.tier != "thorough") qA->huge_check(c, (int)(idx % 2)); else qW->huge_check(c, (int)(idx % 2)); c.distinct(idx + 12345); return; }
     QItems L; int n = r.chance(1, 40) ? r.range(9, 70) : r.range(0, 8);
     for (int i = 0; i < n; i++) { QItem it; it.key = r.chance(1, 6) ? Str() : gen_string(r, 10); it.hasValue = r.chance(2, 3); if (it.hasValue) it.value = r.chance(1, 6) ? Str() : gen_string(r, 10);
